@@ -77,6 +77,11 @@ def sources(tier, seed, ctx):
             srcs.append({'k': 'optable', 't': t, 'n': a, 'who': 'one-gate-circuit'})
     for code in itertools.product('01', repeat=4):
         srcs.append({'k': 'ttcode', 'code': ''.join(code)})
+    # gate tables of the other gate-interpreting modules, read where they are still present under
+    # their current names (absent => not observed, never an alarm)
+    for t in ['NOT', 'AND', 'NAND', 'OR', 'NOR', 'XOR', 'NXOR', 'GEQ', 'GT', 'LEQ', 'LT']:
+        srcs.append({'k': 'pattern', 't': t})
+    srcs.append({'k': 'opcodes'})
     return srcs
 
 
@@ -236,6 +241,30 @@ def record(src):
         c.mark_as_output(lab)
         rows = [r for r, x in enumerate(itertools.product((False, True), repeat=2)) if c.evaluate(list(x))[0] is True]
         return {'kind': 'ttcode', 'code': [int(ch) for ch in src['code']], 't': c.get_gate(lab).gate_type.name, 'rows': rows, 'src': src}
+    if src['k'] == 'pattern':
+        try:
+            from cirbo.minimization.subcircuit import _generate_inputs_tt, _PatternOperations
+        except Exception:
+            return []
+        t = src['t']
+        n = 1 if t == 'NOT' else 2
+        pats = _generate_inputs_tt(n)
+        res = _PatternOperations(n).eval_pattern(list(pats), t)
+        rows = []
+        for i in range(1 << n):
+            if (res >> i) & 1:
+                bits = [(i >> j) & 1 for j in range(n)]      # assignment number i gives input j the bit j of i
+                rows.append(sum(b << (n - 1 - j) for j, b in enumerate(bits)))
+        return {'kind': 'optable', 't': t, 'n': n, 'who': 'subcircuit-pattern-simulation', 'rows': sorted(rows), 'badrows': [], 'src': src}
+    if src['k'] == 'opcodes':
+        try:
+            from cirbo.synthesis.circuit_search import Operation
+        except Exception:
+            return []
+        out = []
+        for op in Operation:
+            out.append({'kind': 'opcode', 't': op.name.rstrip('_').upper(), 'code': str(op.value), 'src': {'k': 'opcodes'}})
+        return out
     raise ValueError(src)
 
 
